@@ -39,4 +39,10 @@ PROPS = {
             {"name": "TestC06", "quick": 1500, "thorough": 40000},
         ],
     },
+    "C07": {
+        "level": "exploration",
+        "tests": [
+            {"name": "TestC07", "quick": 1000, "thorough": 25000},
+        ],
+    },
 }
